@@ -15,6 +15,7 @@ package c19vcode
 import (
 	"errors"
 	"fmt"
+	"math"
 	"strings"
 	"time"
 
@@ -56,14 +57,17 @@ type Op struct {
 	Kind string `json:"kind"` // send | verify
 	P    int    `json:"p"`    // index of the target pair
 	// verify only
-	// right | wrong | trunc | ext | prefix | pad | prev | empty | other, or - code and hash together, Hash is
+	// right | wrong | trunc | ext | prefix | pad | fullwidth | arabic | plus | nul | prev | empty | other, or - code and hash together, Hash is
 	// then ignored - shl (the last 1..3 characters of the code move to the front of the hash) | shr (the first
 	// 1..3 characters of the hash move to the end of the code)
 	Code string `json:"code,omitempty"`
 	Pos  int    `json:"pos,omitempty"`  // which character a "wrong" code/hash differs in; which stale hash; how many characters move / are added / cut (1 + Pos%3)
-	Hash string `json:"hash,omitempty"` // right | stale | prev | wrong | upper | ext | trunc | empty | other
+	Hash string `json:"hash,omitempty"` // right | stale | prev | wrong | upper | ext | trunc | pad | dashed | empty | other
 	From int    `json:"from,omitempty"` // pair whose code/hash "other" takes
 	Pad  string `json:"pad,omitempty"`  // code "pad": characters outside the alphabet put before (Pos%3 == 0), after (1) or around (2) the right code
+	HPad string `json:"hpad,omitempty"` // hash "pad": blank, tab, newline or dash put before (Pos%3 == 0), after (1) or around (2) the right hash
+	Rep  int    `json:"rep,omitempty"`  // the call is made Rep times in a row (0 = once); every repetition is checked against the model
+	Tag  string `json:"tag,omitempty"`  // phase of a long history (only printed)
 }
 
 type Case struct {
@@ -77,6 +81,9 @@ type Case struct {
 	CacheSize      int64  `json:"cache_size"`
 	Pairs          []Pair `json:"pairs"`
 	Ops            []Op   `json:"ops"`
+	// Instances > 1: that many instances are built from ONE Config value before any call; the history runs on
+	// each, every instance is judged against the limits the caller wrote into the Config.
+	Instances int `json:"instances,omitempty"`
 }
 
 // fakeSMS is the real-sender mode's SMS module: it records what it is asked to send.
@@ -235,14 +242,43 @@ func genPairs(t *rapid.T, mock bool, codeLen int) []Pair {
 	return ps
 }
 
-var wrongCodes = []string{"wrong", "wrong", "wrong", "trunc", "ext", "prefix", "pad", "pad", "prev", "empty", "other"}
-var wrongHashes = []string{"stale", "stale", "prev", "wrong", "wrong", "upper", "ext", "trunc", "empty", "other"}
+var wrongCodes = []string{"wrong", "wrong", "wrong", "trunc", "ext", "prefix", "pad", "pad", "fullwidth", "arabic", "plus", "nul", "prev", "empty", "other"}
+var wrongHashes = []string{"stale", "stale", "prev", "wrong", "wrong", "upper", "ext", "trunc", "pad", "pad", "dashed", "empty", "other"}
+
+// what a lenient comparison of hashes might strip
+var hpads = []string{" ", " ", "\n", "\t", "-", "\r\n", "  "}
+
+// limits far from the small numbers: nothing is ever refused for the count then
+var hugeLimits = []int{math.MaxInt, math.MaxInt - 1, math.MaxInt32, math.MaxInt32 + 1, 65535, 65536}
+
+// respell writes every ASCII digit of the code as the digit of another Unicode block starting at zero.
+func respell(code string, zero rune) string {
+	var b strings.Builder
+	for _, r := range code {
+		if r >= '0' && r <= '9' {
+			r = r - '0' + zero
+		}
+		b.WriteRune(r)
+	}
+	return b.String()
+}
+
+// dashed inserts dashes the way a UUID is printed (8-4-4-4-12).
+func dashed(h string) string {
+	if len(h) < 21 {
+		return h[:len(h)/2] + "-" + h[len(h)/2:]
+	}
+	return h[:8] + "-" + h[8:12] + "-" + h[12:16] + "-" + h[16:20] + "-" + h[20:]
+}
 
 // characters outside the code alphabet that a lenient comparison might ignore
 var pads = []string{" ", " ", " ", "  ", "\t", "\n", "\r\n", "\x00", "+", "-", ".", "x", "\u00a0", "\u3000"}
 
 // limits are mostly small (short bursts reach them), sometimes up to 12
 func genLimit(t *rapid.T, label string) int {
+	if rapid.IntRange(0, 15).Draw(t, label+"huge") == 15 {
+		return rapid.SampledFrom(hugeLimits).Draw(t, label+"hugeval")
+	}
 	if rapid.IntRange(0, 5).Draw(t, label+"big") == 0 {
 		return rapid.IntRange(5, 12).Draw(t, label)
 	}
@@ -262,6 +298,17 @@ func GenHistory(t *rapid.T) Case {
 	c.Pairs = genPairs(t, c.Mock, c.CodeLen)
 	np := len(c.Pairs)
 	c.CacheSize = int64(np) + rapid.SampledFrom([]int64{0, 0, 1, 5, 1000}).Draw(t, "cacheextra")
+	if rapid.IntRange(0, 11).Draw(t, "instances") == 11 {
+		c.Instances = rapid.IntRange(2, 3).Draw(t, "ninstances")
+	}
+	// burst lengths are taken around the limits; around 3 when the limit is out of reach
+	nearVerify, nearCount := c.MaxVerifyCount, c.MaxCount
+	if nearVerify > 12 {
+		nearVerify = 3
+	}
+	if nearCount > 12 {
+		nearCount = 3
+	}
 	focus := rapid.IntRange(0, np-1).Draw(t, "focus")
 	pick := func() int {
 		if rapid.IntRange(0, 9).Draw(t, "onfocus") < 6 {
@@ -276,6 +323,9 @@ func GenHistory(t *rapid.T) Case {
 		}
 		if code == "pad" {
 			o.Pad = rapid.SampledFrom(pads).Draw(t, "pad")
+		}
+		if hash == "pad" {
+			o.HPad = rapid.SampledFrom(hpads).Draw(t, "hpad")
 		}
 		if code == "shl" || code == "shr" {
 			o.Hash = ""
@@ -330,7 +380,7 @@ func GenHistory(t *rapid.T) Case {
 			o.From = p
 			ops = append(ops, o)
 		case k < 19: // burst around the attempt limit: w wrong attempts, then the right code (twice)
-			w := c.MaxVerifyCount + rapid.IntRange(-2, 1).Draw(t, "burst")
+			w := nearVerify + rapid.IntRange(-2, 1).Draw(t, "burst")
 			if w < 0 {
 				w = 0
 			}
@@ -348,7 +398,7 @@ func GenHistory(t *rapid.T) Case {
 				ops = append(ops, Op{Kind: "send", P: p}, verify(p, "right", "right"))
 			}
 		case k < 20: // burst of sends around the count limit
-			for i, k := 0, c.MaxCount+rapid.IntRange(0, 2).Draw(t, "sendburst"); i < k; i++ {
+			for i, k := 0, nearCount+rapid.IntRange(0, 2).Draw(t, "sendburst"); i < k; i++ {
 				ops = append(ops, Op{Kind: "send", P: p})
 			}
 			ops = append(ops, verify(p, "right", "right"))
@@ -369,7 +419,7 @@ func GenHistory(t *rapid.T) Case {
 				ops = append(ops, Op{Kind: "send", P: q})
 			case 1:
 				ops = append(ops, Op{Kind: "send", P: q})
-				for i, k := 0, rapid.IntRange(1, c.MaxVerifyCount+1).Draw(t, "relwrong"); i < k; i++ {
+				for i, k := 0, rapid.IntRange(1, nearVerify+1).Draw(t, "relwrong"); i < k; i++ {
 					ops = append(ops, wrongVerify(q))
 				}
 			default:
@@ -447,11 +497,12 @@ func errName(err error) string {
 }
 
 func collide(ps []Pair) bool {
-	for i := range ps {
-		for j := i + 1; j < len(ps); j++ {
-			if ps[i] != ps[j] && ps[i].Area+ps[i].Phone == ps[j].Area+ps[j].Phone {
-				return true
-			}
+	first := make(map[string]Pair, len(ps))
+	for _, p := range ps {
+		if q, ok := first[p.Area+p.Phone]; ok && q != p {
+			return true
+		} else if !ok {
+			first[p.Area+p.Phone] = p
 		}
 	}
 	return false
@@ -503,12 +554,12 @@ func ExecHistory(c Case) *vkit.Result {
 	for i, x := range c.Pairs {
 		norm[i] = normalised(x)
 	}
-	for i := range c.Pairs {
-		for j := i + 1; j < len(c.Pairs); j++ {
-			a, b := c.Pairs[i], c.Pairs[j]
-			if a != b && a.Area+a.Phone != b.Area+b.Phone && norm[i] == norm[j] {
-				res.Class("pairs:equal-after-normalising")
-			}
+	concatOf := make(map[string]string, len(c.Pairs)) // normalised form -> concatenation of the first pair with it
+	for i, a := range c.Pairs {
+		if cc, ok := concatOf[norm[i]]; ok && cc != a.Area+a.Phone {
+			res.Class("pairs:equal-after-normalising")
+		} else if !ok {
+			concatOf[norm[i]] = a.Area + a.Phone
 		}
 	}
 	if c.CodeLen > 8 {
@@ -520,6 +571,15 @@ func ExecHistory(c Case) *vkit.Result {
 	if c.MaxVerifyCount > 4 {
 		res.Class("maxverify:5..")
 	}
+	if c.MaxCount > 12 {
+		res.Class("maxcount:65535..MaxInt")
+	}
+	if c.MaxVerifyCount > 12 {
+		res.Class("maxverify:65535..MaxInt")
+	}
+	if c.MaxVerifyCount == math.MaxInt {
+		res.Class("maxverify:MaxInt")
+	}
 	if c.TTL == always {
 		res.Class("regime:ttl-always-expired")
 	}
@@ -530,8 +590,8 @@ func ExecHistory(c Case) *vkit.Result {
 		res.Class("regime:window-always-new")
 	}
 
-	sms := &fakeSMS{}
-	logic := vcode.NewSimpleLogic(&vcode.Config{
+	// ONE Config value for all instances of the case; the caller's copy of what it wrote is `configured`
+	cfg := &vcode.Config{
 		CacheSize:       c.CacheSize,
 		Mock:            c.Mock,
 		CodeLen:         c.CodeLen,
@@ -540,8 +600,48 @@ func ExecHistory(c Case) *vkit.Result {
 		CounterDuration: tex.Duration(c.CounterDur),
 		MaxCount:        c.MaxCount,
 		MaxVerifyCount:  c.MaxVerifyCount,
-	}, sms, nil)
+	}
+	configured := *cfg
+	n := c.Instances
+	if n < 1 {
+		n = 1
+	}
+	if n > 4 {
+		res.Skip("more than 4 instances")
+		n = 4
+	}
+	if n > 1 {
+		res.Class(fmt.Sprintf("instances-from-one-config:%d", n))
+	}
+	logics := make([]vcode.VCLogic, n)
+	smss := make([]*fakeSMS, n)
+	for k := range logics {
+		smss[k] = &fakeSMS{}
+		logics[k] = vcode.NewSimpleLogic(cfg, smss[k], nil)
+		if *cfg != configured {
+			// not a verdict: the statement speaks of the configured limits, and every instance below is judged against the
+			// limits the caller wrote; a constructor that fills in defaults in place breaks nothing
+			res.Class("config-changed-by-the-constructor")
+		}
+	}
+	for k := range logics {
+		inst := ""
+		if n > 1 {
+			inst = fmt.Sprintf("instance %d of %d built from one Config, ", k+1, n)
+		}
+		execHistoryOn(c, res, logics[k], smss[k], norm, inst)
+		if res.Fail != nil {
+			return res
+		}
+		if *cfg != configured {
+			res.Class("config-changed-by-calls")
+		}
+	}
+	return res
+}
 
+// execHistoryOn runs the history of the case on one instance against a fresh model.
+func execHistoryOn(c Case, res *vkit.Result, logic vcode.VCLogic, sms *fakeSMS, norm []string, inst string) *vkit.Result {
 	model := map[Pair]*pairModel{}
 	get := func(p Pair) *pairModel {
 		m := model[p]
@@ -570,311 +670,354 @@ func ExecHistory(c Case) *vkit.Result {
 		return fmt.Sprintf("<%d characters>", len(code))
 	}
 
+	calls := 0
 	for i, op := range c.Ops {
 		if op.P < 0 || op.P >= len(c.Pairs) || op.From < 0 || op.From >= len(c.Pairs) {
 			res.Skip("op on a pair that is not in the case")
 			continue
 		}
+		reps := op.Rep
+		if reps < 1 {
+			reps = 1
+		}
+		if calls += reps; calls > 4000000 {
+			res.Skip("more than 4000000 calls in one history")
+			break
+		}
 		pair := c.Pairs[op.P]
 		m := get(pair)
-		at := fmt.Sprintf("op %d %s(%q,%q)", i, op.Kind, pair.Area, pair.Phone)
-		switch op.Kind {
-		case "send":
-			// what the statement demands of this send
-			mustRefuse, mustAccept, why := false, true, ""
-			inWindow := m.window
-			if c.CounterDur == always {
-				inWindow = 0 // every send opens a new window
+		for r := 0; r < reps; r++ {
+			opName := fmt.Sprintf("%sop %d", inst, i)
+			if op.Tag != "" {
+				opName += " [" + op.Tag + "]"
 			}
-			switch {
-			case c.MinInterval == never && m.accepted > 0:
-				mustRefuse, mustAccept, why = true, false, "interval"
-			case inWindow >= c.MaxCount+1:
-				mustRefuse, mustAccept, why = true, false, "count"
-			case inWindow == c.MaxCount:
-				mustAccept = false // the (MaxCount+1)-th send of a window: accepted either way
+			if reps > 1 {
+				opName += fmt.Sprintf(" (repetition %d of %d)", r+1, reps)
 			}
-			before := len(sms.calls)
-			hash, err := logic.SendSMSCode(pair.Area, pair.Phone)
-			newCalls := sms.calls[before:]
-			if err != nil {
+			at := fmt.Sprintf("%s %s(%q,%q)", opName, op.Kind, pair.Area, pair.Phone)
+			switch op.Kind {
+			case "send":
+				// what the statement demands of this send
+				mustRefuse, mustAccept, why := false, true, ""
+				inWindow := m.window
+				if c.CounterDur == always {
+					inWindow = 0 // every send opens a new window
+				}
 				switch {
-				case mustAccept:
-					return res.Failf("send/refused", "%s refused with %s, but it is send %d of its window (MaxCount %d, window %s) and no earlier send falls inside the minimum interval (%v)",
-						at, errName(err), inWindow+1, c.MaxCount, time.Duration(c.CounterDur), time.Duration(c.MinInterval))
-				case mustRefuse && why == "interval":
-					res.Class("send:refused-interval")
-				case mustRefuse:
-					res.Class("send:refused-count")
-				default:
-					res.Class("send:(MaxCount+1)-th-refused")
+				case c.MinInterval == never && m.accepted > 0:
+					mustRefuse, mustAccept, why = true, false, "interval"
+				case inWindow > c.MaxCount:
+					mustRefuse, mustAccept, why = true, false, "count"
+				case inWindow == c.MaxCount:
+					mustAccept = false // the (MaxCount+1)-th send of a window: accepted either way
 				}
-				if len(newCalls) != 0 {
-					return res.Failf("send/refused-but-sent", "%s was refused (%s) but the SMS module was asked to send a code (%s)", at, errName(err), showCode(newCalls[0].code))
+				before := len(sms.calls)
+				hash, err := logic.SendSMSCode(pair.Area, pair.Phone)
+				newCalls := sms.calls[before:]
+				if err != nil {
+					switch {
+					case mustAccept:
+						return res.Failf("send/refused", "%s refused with %s, but it is send %d of its window (MaxCount %d, window %s) and no earlier send falls inside the minimum interval (%v)",
+							at, errName(err), inWindow+1, c.MaxCount, time.Duration(c.CounterDur), time.Duration(c.MinInterval))
+					case mustRefuse && why == "interval":
+						res.Class("send:refused-interval")
+					case mustRefuse:
+						res.Class("send:refused-count")
+					default:
+						res.Class("send:(MaxCount+1)-th-refused")
+					}
+					if len(newCalls) != 0 {
+						return res.Failf("send/refused-but-sent", "%s was refused (%s) but the SMS module was asked to send a code (%s)", at, errName(err), showCode(newCalls[0].code))
+					}
+					res.NonTrivial = true
+					continue
 				}
-				res.NonTrivial = true
-				continue
-			}
-			if mustRefuse {
-				if why == "interval" {
-					return res.Failf("send/interval-not-enforced", "%s accepted although the pair was sent to before and MinInterval is %v", at, time.Duration(c.MinInterval))
+				if mustRefuse {
+					if why == "interval" {
+						return res.Failf("send/interval-not-enforced", "%s accepted although the pair was sent to before and MinInterval is %v", at, time.Duration(c.MinInterval))
+					}
+					return res.Failf("send/count-not-enforced", "%s accepted although %d sends were already accepted in this window (MaxCount %d, window %v)", at, inWindow, c.MaxCount, time.Duration(c.CounterDur))
 				}
-				return res.Failf("send/count-not-enforced", "%s accepted although %d sends were already accepted in this window (MaxCount %d, window %v)", at, inWindow, c.MaxCount, time.Duration(c.CounterDur))
-			}
-			if !mustAccept {
-				res.Class("send:(MaxCount+1)-th-accepted")
-			}
-			var code string
-			if c.Mock {
-				code = mockCode(pair.Phone, c.CodeLen)
-			} else {
-				if len(newCalls) != 1 {
-					return res.Failf("send/sms-calls", "%s accepted in real-sender mode but the SMS module was called %d times", at, len(newCalls))
+				if !mustAccept {
+					res.Class("send:(MaxCount+1)-th-accepted")
 				}
-				if newCalls[0].area != pair.Area || newCalls[0].phone != pair.Phone {
-					return res.Failf("send/sms-target", "%s: SMS went to (%q,%q)", at, newCalls[0].area, newCalls[0].phone)
+				var code string
+				if c.Mock {
+					code = mockCode(pair.Phone, c.CodeLen)
+				} else {
+					if len(newCalls) != 1 {
+						return res.Failf("send/sms-calls", "%s accepted in real-sender mode but the SMS module was called %d times", at, len(newCalls))
+					}
+					if newCalls[0].area != pair.Area || newCalls[0].phone != pair.Phone {
+						return res.Failf("send/sms-target", "%s: SMS went to (%q,%q)", at, newCalls[0].area, newCalls[0].phone)
+					}
+					code = newCalls[0].code
+					if len(code) != c.CodeLen {
+						return res.Failf("send/code-length", "%s: the generated code has length %d, CodeLen is %d", at, len(code), c.CodeLen)
+					}
+					if strings.Trim(code, digits) != "" {
+						return res.Failf("send/code-alphabet", "%s: the generated code has characters outside %q", at, digits)
+					}
 				}
-				code = newCalls[0].code
-				if len(code) != c.CodeLen {
-					return res.Failf("send/code-length", "%s: the generated code has length %d, CodeLen is %d", at, len(code), c.CodeLen)
+				if hash == "" {
+					return res.Failf("send/empty-hash", "%s accepted but returned an empty hash", at)
 				}
-				if strings.Trim(code, digits) != "" {
-					return res.Failf("send/code-alphabet", "%s: the generated code has characters outside %q", at, digits)
+				if m.exists {
+					res.Class("send:resend")
+					if hash == m.hash {
+						return res.Failf("send/hash-reused", "%s returned the hash of the previous send again (%s): the old hash is not invalidated", at, showHash(hash))
+					}
+					m.oldHashes = append(m.oldHashes, m.hash)
+					m.oldCodes = append(m.oldCodes, m.code)
 				}
-			}
-			if hash == "" {
-				return res.Failf("send/empty-hash", "%s accepted but returned an empty hash", at)
-			}
-			if m.exists {
-				res.Class("send:resend")
-				if hash == m.hash {
-					return res.Failf("send/hash-reused", "%s returned the hash of the previous send again (%s): the old hash is not invalidated", at, showHash(hash))
+				m.overBefore = m.exists && m.attempts > c.MaxVerifyCount
+				m.exists, m.code, m.hash = true, code, hash
+				if _, dup := hashName[hash]; !dup {
+					hashName[hash] = fmt.Sprintf("<hash returned by op %d>", i)
 				}
-				m.oldHashes = append(m.oldHashes, m.hash)
-				m.oldCodes = append(m.oldCodes, m.code)
-			}
-			m.overBefore = m.exists && m.attempts > c.MaxVerifyCount
-			m.exists, m.code, m.hash = true, code, hash
-			if _, dup := hashName[hash]; !dup {
-				hashName[hash] = fmt.Sprintf("<hash returned by op %d>", i)
-			}
-			m.attempts, m.wrong = 0, 0
-			m.accepted++
-			if c.CounterDur == never {
-				m.window++
-			}
+				m.attempts, m.wrong = 0, 0
+				m.accepted++
+				if c.CounterDur == never {
+					m.window++
+				}
 
-		case "verify":
-			src := get(c.Pairs[op.From])
-			rightCode, rightHash := m.code, m.hash
-			if !m.exists { // nothing was sent: any code is the wrong one
-				rightCode, rightHash = mockCode(pair.Phone, c.CodeLen), strings.Repeat("0", 32)
-			}
-			var code, hash string
-			usedStale := false
-			shift := 1 + op.Pos%3
-			if op.Pos < 0 {
-				shift = 1
-			}
-			switch op.Code {
-			case "right":
-				code = rightCode
-			case "wrong":
-				code = alter(rightCode, op.Pos, digits)
-			case "trunc":
-				if code = ""; len(rightCode) > 0 {
-					code = rightCode[:len(rightCode)-1]
+			case "verify":
+				src := get(c.Pairs[op.From])
+				rightCode, rightHash := m.code, m.hash
+				if !m.exists { // nothing was sent: any code is the wrong one
+					rightCode, rightHash = mockCode(pair.Phone, c.CodeLen), strings.Repeat("0", 32)
 				}
-			case "ext":
-				code = rightCode + digits[op.Pos%10:op.Pos%10+1]
-			case "prefix":
-				code = digits[op.Pos%10:op.Pos%10+1] + rightCode
-			case "pad":
-				pad := op.Pad
-				if strings.Trim(pad, digits) == "" { // a replayed case without padding, or with digits: still a wrong code
-					pad += " "
+				var code, hash string
+				usedStale := false
+				shift := 1 + op.Pos%3
+				if op.Pos < 0 {
+					shift = 1
 				}
-				switch op.Pos % 3 {
-				case 0:
-					code = pad + rightCode
-				case 1:
-					code = rightCode + pad
-				default:
-					code = pad + rightCode + pad
-				}
-			case "prev":
-				if len(m.oldCodes) == 0 {
-					res.Skip("previous code requested before a second send (a wrong code is used)")
+				switch op.Code {
+				case "right":
+					code = rightCode
+				case "wrong":
 					code = alter(rightCode, op.Pos, digits)
-				} else {
-					code = m.oldCodes[len(m.oldCodes)-1]
+				case "trunc":
+					if code = ""; len(rightCode) > 0 {
+						code = rightCode[:len(rightCode)-1]
+					}
+				case "ext":
+					code = rightCode + digits[op.Pos%10:op.Pos%10+1]
+				case "prefix":
+					code = digits[op.Pos%10:op.Pos%10+1] + rightCode
+				case "pad":
+					pad := op.Pad
+					if strings.Trim(pad, digits) == "" { // a replayed case without padding, or with digits: still a wrong code
+						pad += " "
+					}
+					switch op.Pos % 3 {
+					case 0:
+						code = pad + rightCode
+					case 1:
+						code = rightCode + pad
+					default:
+						code = pad + rightCode + pad
+					}
+				case "fullwidth": // the right digits, written as full-width digits
+					code = respell(rightCode, 0xFF10)
+				case "arabic": // ... as Arabic-Indic (or, odd Pos, extended Arabic-Indic) digits
+					code = respell(rightCode, []rune{0x0660, 0x06F0}[op.Pos&1])
+				case "plus":
+					code = "+" + rightCode
+				case "nul":
+					code = rightCode + "\x00"
+				case "prev":
+					if len(m.oldCodes) == 0 {
+						res.Skip("previous code requested before a second send (a wrong code is used)")
+						code = alter(rightCode, op.Pos, digits)
+					} else {
+						code = m.oldCodes[len(m.oldCodes)-1]
+					}
+				case "shl", "shr": // below, together with the hash
+				case "empty":
+					code = ""
+				case "other":
+					code = src.code
+					if !src.exists {
+						code = mockCode(c.Pairs[op.From].Phone, c.CodeLen)
+					}
+				default:
+					res.Skip("unknown code kind")
+					continue
 				}
-			case "shl", "shr": // below, together with the hash
-			case "empty":
-				code = ""
-			case "other":
-				code = src.code
-				if !src.exists {
-					code = mockCode(c.Pairs[op.From].Phone, c.CodeLen)
+				hashKind := op.Hash
+				switch op.Code {
+				case "shl": // the concatenation code+hash is the right one, the boundary is not
+					k := shift
+					if k > len(rightCode) {
+						k = len(rightCode)
+					}
+					code, hash, hashKind = rightCode[:len(rightCode)-k], rightCode[len(rightCode)-k:]+rightHash, "shifted"
+				case "shr":
+					k := shift
+					if k > len(rightHash) {
+						k = len(rightHash)
+					}
+					code, hash, hashKind = rightCode+rightHash[:k], rightHash[k:], "shifted"
 				}
-			default:
-				res.Skip("unknown code kind")
-				continue
-			}
-			hashKind := op.Hash
-			switch op.Code {
-			case "shl": // the concatenation code+hash is the right one, the boundary is not
-				k := shift
-				if k > len(rightCode) {
-					k = len(rightCode)
-				}
-				code, hash, hashKind = rightCode[:len(rightCode)-k], rightCode[len(rightCode)-k:]+rightHash, "shifted"
-			case "shr":
-				k := shift
-				if k > len(rightHash) {
-					k = len(rightHash)
-				}
-				code, hash, hashKind = rightCode+rightHash[:k], rightHash[k:], "shifted"
-			}
-			switch hashKind {
-			case "shifted":
-			case "right":
-				hash = rightHash
-			case "prev":
-				if len(m.oldHashes) == 0 {
-					res.Skip("previous hash requested before a second send (a wrong hash is used)")
+				switch hashKind {
+				case "shifted":
+				case "right":
+					hash = rightHash
+				case "prev":
+					if len(m.oldHashes) == 0 {
+						res.Skip("previous hash requested before a second send (a wrong hash is used)")
+						hash = alter(rightHash, op.Pos, "0123456789abcdef")
+					} else {
+						hash = m.oldHashes[len(m.oldHashes)-1]
+						usedStale = true
+					}
+				case "ext":
+					hash = rightHash + strings.Repeat("0123456789abcdef"[op.Pos%16:op.Pos%16+1], shift)
+				case "trunc":
+					if hash = ""; len(rightHash) > shift {
+						hash = rightHash[:len(rightHash)-shift]
+					}
+				case "stale":
+					if len(m.oldHashes) == 0 {
+						res.Skip("stale hash requested before a second send (a wrong hash is used)")
+						hash = alter(rightHash, op.Pos, "0123456789abcdef")
+					} else {
+						hash = m.oldHashes[op.Pos%len(m.oldHashes)]
+						usedStale = true
+					}
+				case "wrong":
 					hash = alter(rightHash, op.Pos, "0123456789abcdef")
-				} else {
-					hash = m.oldHashes[len(m.oldHashes)-1]
-					usedStale = true
+				case "upper":
+					hash = strings.ToUpper(rightHash)
+				case "pad":
+					pad := op.HPad
+					if pad == "" {
+						pad = " "
+					}
+					switch op.Pos % 3 {
+					case 0:
+						hash = pad + rightHash
+					case 1:
+						hash = rightHash + pad
+					default:
+						hash = pad + rightHash + pad
+					}
+				case "dashed":
+					hash = dashed(rightHash)
+				case "empty":
+					hash = ""
+				case "other":
+					hash = src.hash
+					if !src.exists {
+						hash = strings.Repeat("f", 32)
+					}
+				default:
+					res.Skip("unknown hash kind")
+					continue
 				}
-			case "ext":
-				hash = rightHash + strings.Repeat("0123456789abcdef"[op.Pos%16:op.Pos%16+1], shift)
-			case "trunc":
-				if hash = ""; len(rightHash) > shift {
-					hash = rightHash[:len(rightHash)-shift]
-				}
-			case "stale":
-				if len(m.oldHashes) == 0 {
-					res.Skip("stale hash requested before a second send (a wrong hash is used)")
-					hash = alter(rightHash, op.Pos, "0123456789abcdef")
-				} else {
-					hash = m.oldHashes[op.Pos%len(m.oldHashes)]
-					usedStale = true
-				}
-			case "wrong":
-				hash = alter(rightHash, op.Pos, "0123456789abcdef")
-			case "upper":
-				hash = strings.ToUpper(rightHash)
-			case "empty":
-				hash = ""
-			case "other":
-				hash = src.hash
-				if !src.exists {
-					hash = strings.Repeat("f", 32)
-				}
-			default:
-				res.Skip("unknown hash kind")
-				continue
-			}
-			at = fmt.Sprintf("op %d verify(%q,%q, code %s=%s, hash %s=%s)", i, pair.Area, pair.Phone, op.Code, showCode(code), hashKind, showHash(hash))
+				at = fmt.Sprintf("%s verify(%q,%q, code %s=%s, hash %s=%s)", opName, pair.Area, pair.Phone, op.Code, showCode(code), hashKind, showHash(hash))
 
-			// expectation
-			codeOK := m.exists && code == m.code
-			hashOK := m.exists && hash == m.hash
-			if m.exists {
-				m.attempts++
-			}
-			over := m.exists && m.attempts > c.MaxVerifyCount
-			expired := c.TTL == always
-			want := m.exists && !over && codeOK && hashOK && !expired
+				// expectation
+				codeOK := m.exists && code == m.code
+				hashOK := m.exists && hash == m.hash
+				if m.exists {
+					m.attempts++
+				}
+				over := m.exists && m.attempts > c.MaxVerifyCount
+				expired := c.TTL == always
+				want := m.exists && !over && codeOK && hashOK && !expired
 
-			err := logic.VerifySMSCode(pair.Area, pair.Phone, code, hash)
-			got := err == nil
+				err := logic.VerifySMSCode(pair.Area, pair.Phone, code, hash)
+				got := err == nil
 
-			state := fmt.Sprintf("model: sent=%v, current code %s, current hash %s, attempt %d of at most %d, TTL %v", m.exists, showCode(m.code), showHash(m.hash), m.attempts, c.MaxVerifyCount, time.Duration(c.TTL))
-			if want && !got {
-				return res.Failf("verify/right-rejected", "%s returned %s, but the code and hash are the ones of the last send to this pair, inside lifetime and attempt limit (%s)", at, errName(err), state)
-			}
-			if !want && got {
+				state := fmt.Sprintf("model: sent=%v, current code %s, current hash %s, attempt %d of at most %d, TTL %v", m.exists, showCode(m.code), showHash(m.hash), m.attempts, c.MaxVerifyCount, time.Duration(c.TTL))
+				if want && !got {
+					return res.Failf("verify/right-rejected", "%s returned %s, but the code and hash are the ones of the last send to this pair, inside lifetime and attempt limit (%s)", at, errName(err), state)
+				}
+				if !want && got {
+					switch {
+					case !m.exists:
+						return res.Failf("verify/accepted-unsent", "%s succeeded although no code was sent to this pair (%s)", at, state)
+					case over:
+						return res.Failf("verify/accepted-over-limit", "%s succeeded although more than MaxVerifyCount attempts were made against this code (%s)", at, state)
+					case !codeOK:
+						return res.Failf("verify/accepted-wrong-code", "%s succeeded with a code that is not the current one (%s)", at, state)
+					case !hashOK:
+						return res.Failf("verify/accepted-wrong-hash", "%s succeeded with a hash that is not the one of the last send (%s)", at, state)
+					default:
+						return res.Failf("verify/accepted-expired", "%s succeeded after the lifetime (%s)", at, state)
+					}
+				}
+
+				// classes
+				otherPair := op.From != op.P && (op.Code == "other" || op.Hash == "other")
 				switch {
 				case !m.exists:
-					return res.Failf("verify/accepted-unsent", "%s succeeded although no code was sent to this pair (%s)", at, state)
-				case over:
-					return res.Failf("verify/accepted-over-limit", "%s succeeded although more than MaxVerifyCount attempts were made against this code (%s)", at, state)
+					res.Class("verify:unsent-pair")
+				case got && m.wrong > 0:
+					res.Class("verify:ok-after-wrong-attempts")
+					res.NonTrivial = true
+				case got:
+					res.Class("verify:ok")
+				case codeOK && hashOK && over:
+					res.Class("verify:right-code-over-limit")
+					if m.wrong > 0 {
+						res.NonTrivial = true
+					}
+				case codeOK && hashOK && expired:
+					res.Class("verify:right-code-expired")
+					if m.wrong > 0 {
+						res.NonTrivial = true
+					}
+				case codeOK && !hashOK && usedStale:
+					res.Class("verify:right-code-stale-hash")
+				case codeOK && !hashOK:
+					res.Class("verify:right-code-wrong-hash")
 				case !codeOK:
-					return res.Failf("verify/accepted-wrong-code", "%s succeeded with a code that is not the current one (%s)", at, state)
-				case !hashOK:
-					return res.Failf("verify/accepted-wrong-hash", "%s succeeded with a hash that is not the one of the last send (%s)", at, state)
-				default:
-					return res.Failf("verify/accepted-expired", "%s succeeded after the lifetime (%s)", at, state)
+					res.Class("verify:wrong-code")
 				}
-			}
+				if got && m.overBefore {
+					res.Class("verify:ok-after-resend-reset-attempts")
+				}
+				if got && m.attempts == c.MaxVerifyCount {
+					res.Class("verify:ok-on-last-allowed-attempt")
+				}
+				if m.exists && !(codeOK && hashOK) {
+					switch {
+					case op.Code == "shl" || op.Code == "shr":
+						res.Class("verify:code-hash-boundary-moved")
+					case op.Code == "pad" || op.Code == "plus" || op.Code == "nul":
+						res.Class("verify:padded-right-code")
+					case op.Code == "fullwidth" || op.Code == "arabic":
+						res.Class("verify:right-code-other-digit-block")
+					case op.Code == "prev" && !codeOK && hashOK:
+						res.Class("verify:previous-code-current-hash")
+					case op.Code == "prev" && !codeOK && op.Hash == "prev" && usedStale:
+						res.Class("verify:previous-code-own-hash")
+					}
+					if codeOK && (op.Hash == "ext" || op.Hash == "trunc" || op.Hash == "pad" || op.Hash == "dashed") {
+						res.Class("verify:right-code-hash-" + op.Hash)
+					}
+				}
+				if otherPair && m.exists {
+					res.Class("verify:other-pairs-code-and-hash")
+					if c.Pairs[op.From] != pair && norm[op.From] == norm[op.P] {
+						res.Class("verify:related-pairs-code-and-hash")
+					}
+					if c.Pairs[op.From].Area+c.Pairs[op.From].Phone == pair.Area+pair.Phone && c.Pairs[op.From] != pair {
+						res.Class("verify:colliding-pairs-code-and-hash")
+					}
+				}
+				if m.exists && !(codeOK && hashOK) {
+					m.wrong++
+				}
+				res.Class("verify-result:" + errName(err))
 
-			// classes
-			otherPair := op.From != op.P && (op.Code == "other" || op.Hash == "other")
-			switch {
-			case !m.exists:
-				res.Class("verify:unsent-pair")
-			case got && m.wrong > 0:
-				res.Class("verify:ok-after-wrong-attempts")
-				res.NonTrivial = true
-			case got:
-				res.Class("verify:ok")
-			case codeOK && hashOK && over:
-				res.Class("verify:right-code-over-limit")
-				if m.wrong > 0 {
-					res.NonTrivial = true
-				}
-			case codeOK && hashOK && expired:
-				res.Class("verify:right-code-expired")
-				if m.wrong > 0 {
-					res.NonTrivial = true
-				}
-			case codeOK && !hashOK && usedStale:
-				res.Class("verify:right-code-stale-hash")
-			case codeOK && !hashOK:
-				res.Class("verify:right-code-wrong-hash")
-			case !codeOK:
-				res.Class("verify:wrong-code")
+			default:
+				res.Skip("unknown op kind")
 			}
-			if got && m.overBefore {
-				res.Class("verify:ok-after-resend-reset-attempts")
-			}
-			if got && m.attempts == c.MaxVerifyCount {
-				res.Class("verify:ok-on-last-allowed-attempt")
-			}
-			if m.exists && !(codeOK && hashOK) {
-				switch {
-				case op.Code == "shl" || op.Code == "shr":
-					res.Class("verify:code-hash-boundary-moved")
-				case op.Code == "pad":
-					res.Class("verify:padded-right-code")
-				case op.Code == "prev" && !codeOK && hashOK:
-					res.Class("verify:previous-code-current-hash")
-				case op.Code == "prev" && !codeOK && op.Hash == "prev" && usedStale:
-					res.Class("verify:previous-code-own-hash")
-				}
-				if codeOK && (op.Hash == "ext" || op.Hash == "trunc") {
-					res.Class("verify:right-code-hash-" + op.Hash)
-				}
-			}
-			if otherPair && m.exists {
-				res.Class("verify:other-pairs-code-and-hash")
-				if c.Pairs[op.From] != pair && norm[op.From] == norm[op.P] {
-					res.Class("verify:related-pairs-code-and-hash")
-				}
-				if c.Pairs[op.From].Area+c.Pairs[op.From].Phone == pair.Area+pair.Phone && c.Pairs[op.From] != pair {
-					res.Class("verify:colliding-pairs-code-and-hash")
-				}
-			}
-			if m.exists && !(codeOK && hashOK) {
-				m.wrong++
-			}
-			res.Class("verify-result:" + errName(err))
-
-		default:
-			res.Skip("unknown op kind")
 		}
 	}
 	return res
@@ -889,6 +1032,9 @@ var PartHistory = vkit.Part[Case]{
 		"1..16 steps (a call or a burst): Send, Verify(right|wrong|truncated|extended|digit-prefixed|padded with blanks or other non-alphabet characters|previous|empty|other pair's code x right|stale|previous|wrong|upper-cased|extended|truncated|empty|other pair's hash), " +
 		"Verify with 1..3 characters moved across the code/hash boundary, bursts of wrong attempts around MaxVerifyCount followed by the right code, bursts of sends around MaxCount, " +
 		"resend followed by the previous code (with the current and with its own hash), send to p / sends and attempts on a pair related to p / right code for p. " +
+		"Also: the right code respelled (full-width / Arabic-Indic digits, leading '+', trailing NUL), the right hash with a blank, tab, newline or dash before/after/around or dashed the UUID way; " +
+		"MaxCount / MaxVerifyCount from {MaxInt, MaxInt-1, MaxInt32, MaxInt32+1, 65535, 65536} in a small share of the cases; one case in twelve runs the history on 2..3 instances built from ONE Config value " +
+		"(each judged against the configured limits; the Config must stay as the caller wrote it). " +
 		"Oracle: per-pair model {code, hash, attempts, accepted sends in window} from the statement. " +
 		"Non-trivial: the history contains a Verify with the right code and hash after >= 1 wrong attempt against the same code, or a refused send.",
 	Quick:    20000,
